@@ -96,6 +96,7 @@ static CO_ERR COTInt8Write(struct CO_OBJ_T *obj, struct CO_NODE_T *node, void *b
     CO_UNUSED(node);
     ASSERT_PTR_ERR(obj, CO_ERR_BAD_ARG);
     ASSERT_PTR_ERR(buffer, CO_ERR_BAD_ARG);
+    ASSERT_EQU_ERR(size, COT_ENTRY_SIZE, CO_ERR_BAD_ARG);
 
     value = *((uint8_t *)buffer);
     if (size == COT_ENTRY_SIZE) {
